@@ -19,6 +19,10 @@
      - delete of a name that is not stored raises KeyError before anything is saved.
      - save: [mkdir if the directory is missing]; open "<file>.tmp" truncating; one
        write per chunk json.dump produces; close; os.replace(tmp, file).
+   The file system is the directory flag, the content of the key file and of its ".tmp"
+   sibling, and the userspace buffer of the open file object: write() only fills the
+   buffer, close() flushes it, a crash loses whatever part of it the runtime had not
+   flushed yet.
    Abstractions: strings are lists of code points; the printer escapes them as
    json.dump(ensure_ascii=True) does and the reader [parse] undoes every JSON string
    escape (the well-formedness predicate of the theorems only excludes surrogate code
@@ -563,39 +567,64 @@ Definition parse (bs : str) : option db :=
   end.
 
 (* ------------------------------------------------------------------ file system *)
-Record fs := mkFs {
+Inductive path := PMain | PTmp.
+
+Record fs := MkFs {
   f_dir : bool;               (* the directory of the file exists *)
   f_main : option str;        (* content of the key file, None = does not exist *)
-  f_tmp : option str          (* content of "<file>.tmp" *)
+  f_tmp : option str;         (* content of "<file>.tmp" *)
+  f_buf : option (path * str) (* the open file object: which file it writes to and what it still holds
+                                 in its userspace buffer (written, not yet flushed) *)
 }.
-
-Inductive path := PMain | PTmp.
+Definition mkFs (d : bool) (m t : option str) : fs := MkFs d m t None.
 
 Inductive step :=
 | SMkdir
 | SOpenTrunc (p : path)               (* open(p, 'w') *)
-| SWrite (p : path) (c : str)         (* one write() reaching the file *)
-| SClose (p : path)
+| SWrite (p : path) (c : str)         (* one write() into the file object's buffer *)
+| SClose (p : path)                   (* close(): the buffer is flushed to the file *)
 | SRename (src dst : path).           (* os.replace *)
 
+Definition path_eqb (a b : path) : bool :=
+  match a, b with PMain, PMain => true | PTmp, PTmp => true | _, _ => false end.
 Definition fget (f : fs) (p : path) : option str :=
   match p with PMain => f_main f | PTmp => f_tmp f end.
 Definition fset (f : fs) (p : path) (v : option str) : fs :=
   match p with
-  | PMain => mkFs (f_dir f) v (f_tmp f)
-  | PTmp => mkFs (f_dir f) (f_main f) v
+  | PMain => MkFs (f_dir f) v (f_tmp f) (f_buf f)
+  | PTmp => MkFs (f_dir f) (f_main f) v (f_buf f)
   end.
+Definition set_buf (f : fs) (b : option (path * str)) : fs := MkFs (f_dir f) (f_main f) (f_tmp f) b.
 
-(* None = the step raises (OSError) *)
+(* None = the step raises (OSError / ValueError on a closed file) *)
 Definition exec_step (f : fs) (s : step) : option fs :=
   match s with
-  | SMkdir => Some (mkFs true (f_main f) (f_tmp f))
-  | SOpenTrunc p => if f_dir f then Some (fset f p (Some [])) else None
-  | SWrite p c => match fget f p with Some b => Some (fset f p (Some (b ++ c))) | None => None end
-  | SClose p => match fget f p with Some _ => Some f | None => None end
+  | SMkdir => Some (MkFs true (f_main f) (f_tmp f) (f_buf f))
+  | SOpenTrunc p => if f_dir f then Some (set_buf (fset f p (Some [])) (Some (p, []))) else None
+  | SWrite p c =>
+      match f_buf f with
+      | Some (q, b) => if path_eqb p q then Some (set_buf f (Some (q, b ++ c))) else None
+      | None => None
+      end
+  | SClose p =>
+      match f_buf f with
+      | Some (q, b) =>
+          if path_eqb p q then
+            match fget f q with
+            | Some x => Some (set_buf (fset f q (Some (x ++ b))) None)
+            | None => None
+            end
+          else None
+      | None => None
+      end
   | SRename a b =>
       match fget f a with
-      | Some x => Some (fset (fset f b (Some x)) a None)
+      | Some x =>
+          Some (set_buf (fset (fset f b (Some x)) a None)
+                        (match f_buf f with           (* an open descriptor follows the file *)
+                         | Some (q, bb) => if path_eqb q a then Some (b, bb) else Some (q, bb)
+                         | None => None
+                         end))
       | None => None
       end
   end.
@@ -606,16 +635,28 @@ Fixpoint exec_steps (f : fs) (l : list step) : option fs :=
   | s :: r => match exec_step f s with Some f' => exec_steps f' r | None => None end
   end.
 
-(* the process dies before step number k (0-based); if that step is a write, its first
-   [cut] bytes still reach the file *)
+(* the process dies: of what the file object still holds, only the first [cut] bytes had been
+   flushed by the runtime (any buffering policy is some [cut]); the rest is lost *)
+Definition die (cut : nat) (f : fs) : fs :=
+  match f_buf f with
+  | Some (q, b) =>
+      match fget f q with
+      | Some x => set_buf (fset f q (Some (x ++ firstn cut b))) None
+      | None => set_buf f None
+      end
+  | None => f
+  end.
+
+(* the process dies before step number k (0-based) completes; if that step is a write its chunk may
+   already be in the buffer; [cut] as in [die] *)
 Fixpoint crash_exec (k cut : nat) (l : list step) (f : fs) : option fs :=
   match l with
-  | [] => Some f
+  | [] => Some (die cut f)
   | s :: r =>
       match k with
       | O => match s with
-             | SWrite p c => exec_step f (SWrite p (firstn cut c))
-             | _ => Some f
+             | SWrite p c => match exec_step f s with Some f' => Some (die cut f') | None => None end
+             | _ => Some (die cut f)
              end
       | S k' => match exec_step f s with Some f' => crash_exec k' cut r f' | None => None end
       end
